@@ -26,7 +26,7 @@ Determinism (no sleeps, no races):
 """
 import errno, gc, os, signal, socket, sys, tempfile, threading, time as _time, platform
 import pexpect
-import pexpect.pty_spawn, pexpect.popen_spawn, pexpect.fdpexpect, pexpect.socket_pexpect, pexpect.run
+import pexpect.pty_spawn, pexpect.popen_spawn, pexpect.fdpexpect, pexpect.socket_pexpect
 import ptyprocess.ptyprocess as _pp
 
 PEER = os.path.join(os.path.dirname(os.path.abspath(__file__)), 'peers', 'lifepeer.sh')
@@ -143,17 +143,17 @@ def _on_usr1(signum, frame):
         raise Blocked()
 
 
-def _watch():
-    """interrupt the main thread when it sleeps in wait4(<child>, .., options=0)"""
-    path_stat = '/proc/self/task/%d/stat' % _main_tid
-    path_sys = '/proc/self/task/%d/syscall' % _main_tid
+def _watch(fd_stat, fd_sys):
+    """interrupt the main thread when it sleeps in wait4(<child>, .., options=0).  The two /proc
+    files were opened once, before any case started: the watcher never allocates a descriptor
+    while a case runs (it would disturb the /proc/self/fd observations)."""
     while True:
         _armed.wait()
         while _armed.is_set() and not _fired.is_set():
             try:
-                s = open(path_stat).read()
+                s = os.pread(fd_stat, 1024, 0).decode()
                 if s[s.rindex(')') + 2] == 'S':
-                    f = open(path_sys).read().split()
+                    f = os.pread(fd_sys, 512, 0).decode().split()
                     if f and f[0] == str(_WAIT4) and int(f[3], 16) == 0 and _current is not None \
                             and int(f[1], 16) & 0xffffffff == _current.pid:
                         _fired.set()
@@ -181,7 +181,9 @@ def install():
     _pp.os = op
     pexpect.popen_spawn.os = op
     signal.signal(signal.SIGUSR1, _on_usr1)
-    t = threading.Thread(target=_watch, daemon=True)
+    fd_stat = os.open('/proc/self/task/%d/stat' % _main_tid, os.O_RDONLY)
+    fd_sys = os.open('/proc/self/task/%d/syscall' % _main_tid, os.O_RDONLY)
+    t = threading.Thread(target=_watch, args=(fd_stat, fd_sys), daemon=True)
     t.start()
 
 
@@ -203,13 +205,21 @@ class guard(object):
 class Intruder(object):
     def __init__(self, number):
         self.number = number
+        import fcntl
         a, b = socket.socketpair()
-        self.a, self.b = a, b
-        b.send(b'I')                      # one byte pending for whoever reads the old number
-        os.dup2(a.fileno(), number)
-        self.ino = fd_ino(a.fileno())
-        b.setblocking(False)
-        a.setblocking(False)
+        # keep the pair itself away from the low numbers (one of them may just have received
+        # the very number we are about to occupy)
+        ha = fcntl.fcntl(a.fileno(), fcntl.F_DUPFD, 200)
+        hb = fcntl.fcntl(b.fileno(), fcntl.F_DUPFD, 200)
+        a.close()
+        b.close()
+        self.a = socket.socket(fileno=ha)     # second handle on the intruder's open file (MSG_PEEK)
+        self.b = socket.socket(fileno=hb)
+        self.b.send(b'I')                     # one byte pending for whoever reads the old number
+        os.dup2(ha, number)                   # the NUMBER is now a bare descriptor of "someone else"
+        self.ino = fd_ino(number)
+        self.a.setblocking(False)
+        self.b.setblocking(False)
 
     def touched(self):
         """somebody wrote to / read from / closed the old descriptor NUMBER"""
@@ -295,7 +305,8 @@ class Case(object):
     def op(self, name, arg, final=False):
         self.syscalls = []
         ret, rv = self.call(name, arg)
-        ev = {'e': 'op', 'op': name, 'arg': arg, 'ret': ret, 'rv': rv, 'final': final}
+        ev = {'e': 'op', 'op': name, 'arg': arg, 'ret': ret, 'rv': rv, 'final': final,
+              'exc': ret not in ('None', 'True', 'False', 'int', 'val')}
         ev.update(self.observe())
         ev['touched'] = bool(self.intruder.touched()) if self.intruder is not None else False
         ev['sys'] = list(self.syscalls)
@@ -446,6 +457,7 @@ class ChildCase(Case):
         self.k_state = 'run'
         self.k_pend = set()
         self.k_fd_closed = False
+        self.fate = ('none', -1)
 
     def attach(self):
         self.cmd = os.open(self.fifo, os.O_WRONLY)      # returns once the peer opened its end: traps are set
@@ -455,7 +467,20 @@ class ChildCase(Case):
     def _dies(self, sig):
         self.k_state = 'zombie'
         self.k_pend = set()
-        os.waitid(os.P_PID, self.pid, os.WEXITED | os.WNOWAIT)
+        self.note_fate(os.waitid(os.P_PID, self.pid, os.WEXITED | os.WNOWAIT))
+
+    def note_fate(self, si):
+        """the REAL fate, as the kernel reports it (the zombie is left for pexpect to reap)"""
+        if si is not None and self.fate[0] == 'none':
+            self.fate = ('exit', si.si_status) if si.si_code == os.CLD_EXITED else ('sig', si.si_status)
+
+    def real_fate(self):
+        if self.fate[0] == 'none' and not self.reaped_seen:
+            try:
+                self.note_fate(os.waitid(os.P_PID, self.pid, os.WEXITED | os.WNOWAIT | os.WNOHANG))
+            except OSError:
+                pass
+        return {'fk': self.fate[0], 'fv': self.fate[1]}
 
     def mirror_signal(self, sig):
         if self.k_state not in ('run', 'stop'):
@@ -547,6 +572,7 @@ class PtyCase(ChildCase):
 
     def observe(self):
         o = {'proc': proc_state(self.pid, os.getpid()), 'fd': self.fd_state()}
+        o.update(self.real_fate())
         c = self.child
         if c is None:
             o.update(gone=True, term=False, closed=False, fdv='m1', es=-1, ss=-1, sk='none', sv=-1, eof=False, pclosed=False)
@@ -580,7 +606,8 @@ class PopenCase(ChildCase):
     def observe(self):
         c = self.child
         sk, sv = status_pair(c.status)
-        return {'proc': proc_state(self.pid, os.getpid()), 'fd': 'open', 'gone': False,
+        o = self.real_fate()
+        return {'proc': proc_state(self.pid, os.getpid()), 'fd': 'open', 'gone': False, 'fk': o['fk'], 'fv': o['fv'],
                 'term': bool(c.terminated), 'closed': False, 'fdv': 'num',
                 'es': -1 if c.exitstatus is None else c.exitstatus,
                 'ss': -1 if c.signalstatus is None else c.signalstatus, 'sk': sk, 'sv': sv,
@@ -680,7 +707,7 @@ class FdCase(Case):
 
     def observe(self):
         c = self.child
-        o = {'proc': 'run', 'fd': self.fd_state(), 'es': -1, 'ss': -1, 'sk': 'none', 'sv': -1,
+        o = {'proc': 'run', 'fk': 'none', 'fv': -1, 'fd': self.fd_state(), 'es': -1, 'ss': -1, 'sk': 'none', 'sv': -1,
              'term': False, 'pclosed': False}
         if c is None:
             o.update(gone=True, closed=False, fdv='m1', eof=False)
